@@ -82,6 +82,7 @@ TOTAL = {
     "BTreeSet::<T>::new": "pure", "BTreeSet::<T, A>::insert": "alloc only", "BTreeSet::<T, A>::contains": "pure",
     # external crates
     "crc32c::crc32c": "total on any slice (table-driven / hardware CRC; external crate, trusted)",
+    "crc32c::crc32c_append": "total on any slice (continues a CRC; external crate, trusted)",
     # winnow: constructors are pure; running a parser is governed by the C07 grammar premises
     "Parser::parse_next": "winnow combinators report failure as Err; the one debug assertion (repeat without progress) is excluded by C07.R3 (every element consumes >= 4 bytes)",
     "Parser::value": "constructor", "Parser::map": "constructor", "Parser::void": "constructor", "Parser::verify": "constructor",
